@@ -167,6 +167,83 @@ def alloc(nbands=1, with_cv=True, R=2, C=2, cap=60, block=()):
     return col.result(stats, functions=info.get('fn', {}), bounds={'existing bands': nbands, 'cost volume given': with_cv, 'map': [R, C]})
 
 
+def std_intensity(R=3, C=4, ws=3, bands=None, band=None, vmax=255, cap=60, block=()):
+    """StdIntensity.confidence_prediction (compute_std_raster / compute_mean_raster): the band is NaN on the border and, elsewhere, the
+    non-negative number whose square is the variance of the left window (tiny variances clamped to 0 as documented in the code);
+    appended under its name, other products untouched.  sqrt is an uninterpreted function with s >= 0, s*s == x."""
+    import xarray as xr
+    from fractions import Fraction
+    from vf import symnp as S, instr
+    from vf.explore import EX, explore
+    from vf.hutil import Collector
+    from vf.harness import mc
+    from vf.harness.c10 import _uf_atoms, _valid
+    from pandora import cost_volume_confidence
+    import pandora.img_tools as IT, pandora.cost_volume_confidence.std_intensity as SI
+    col = Collector(cap_s=cap)
+    info = {}
+    S.MODE['exact'] = True; S.REALS['div'] = True
+    hh = ws // 2; n = ws * ws
+    EPS = z3.RealVal(str(Fraction(10 ** (-15))))
+
+    def h():
+        shapes = {}
+        L, li, _ = mc.make_image(xr, S, EX, 'l', R, C, bands=bands, shapes=shapes, vmax=vmax)
+        dm = S.fresh_array('dm', (R, C), 'x4'); shapes['dm'] = ((R, C), 'x4')
+        cvd = S.fresh_array('cvd', (R, C, 2), 'x4', tagged=True, tags=(0, 1)); shapes['cvd'] = ((R, C, 2), 'x4')
+        col.shapes = shapes
+        coords = {"row": np.arange(R), "col": np.arange(C)}
+        disp = xr.Dataset({"disparity_map": (["row", "col"], dm)}, coords=coords)
+        cv = xr.Dataset({"cost_volume": (["row", "col", "disp"], cvd)}, coords=dict(coords, disp=[0, 1]))
+        cv.attrs = {"window_size": ws, "band_correl": band, "offset_row_col": hh}
+        dm0 = dm.copy(); cvd0 = cvd.copy(); li0 = li.copy()
+        ex = {'std_intensity': True, 'R': R, 'C': C, 'ws': ws, 'bands': bands, 'band': band}
+        st = cost_volume_confidence.AbstractCostVolumeConfidence(**{"confidence_method": "std_intensity"})
+        try:
+            d2, c2 = st.confidence_prediction(disp, L, None, cv)
+        except S.Unsupported:
+            raise
+        except Exception as e:      # noqa
+            col.path_exception(e, label='p%d' % len(EX.trace), extra=ex); return
+        props = []
+        sel = li0 if not bands else S.SymArray(li0._a[list(bands).index(band)], 'x4')
+        for nm, ds in (("disp", d2), ("cv", c2)):
+            props.append((nm + "-band-appended-under-its-name", z3.BoolVal("confidence_measure" in ds and list(ds.coords["indicator"].data) == ["confidence_from_intensity_std"]
+                                                                          and tuple(ds["confidence_measure"].shape) == (R, C, 1))))
+        cm = d2["confidence_measure"].data if "confidence_measure" in d2 else None
+        if cm is not None and tuple(cm.shape) == (R, C, 1):
+            for r in range(R):
+                for c in range(C):
+                    o = S.xlift(cm._a[r, c, 0])
+                    if r < hh or r >= R - hh or c < hh or c >= C - hh:
+                        props.append(("nan-on-the-border[%d,%d]" % (r, c), o.tag == 1)); continue
+                    win = [sel._a[r + dr, c + dc].t.val for dr in range(-hh, hh + 1) for dc in range(-hh, hh + 1)]
+                    m2 = z3.Sum([v * v for v in win]) / n; m1 = z3.Sum(win) / n
+                    var = m2 - m1 * m1
+                    var_c = z3.If(var < EPS * m2, 0, var)
+                    atoms = _uf_atoms(o.val, 'sqrt_uf')
+                    matched = [a_ for a_ in atoms if _valid(EX, a_.arg(0) == var_c, 20000)]
+                    if matched and z3.is_true(z3.simplify(o.tag == 0)) and o.val.eq(matched[0]) or (matched and z3.is_true(z3.simplify(z3.simplify(o.val) == matched[0]))):
+                        ok = z3.BoolVal(True)          # the stored value IS sqrt(var_c): s >= 0 and s*s == var_c by the axioms of the atom
+                    else:
+                        EX.assume(var >= 0)          # Cauchy-Schwarz (mathematical fact about the reference term)
+                        ok = z3.And(o.tag == 0, o.val >= 0, o.val * o.val == var_c)
+                    props.append(("std-of-the-left-window[%d,%d]" % (r, c), z3.And(o.tag == 0, ok)))
+            c2m = c2["confidence_measure"].data
+            props.append(("same-band-on-the-cost-volume", z3.And(*[S.term_eq(a, b, 'x4') for a, b in zip(c2m._a.flat, cm._a.flat)])))
+        props.append(("cost-volume-untouched", z3.And(*[S.term_eq(a, b, 'x4') for a, b in zip(c2["cost_volume"].data._a.flat, cvd0._a.flat)])))
+        props.append(("disparity-map-untouched", z3.And(*[S.term_eq(a, b, 'x4') for a, b in zip(d2["disparity_map"].data._a.flat, dm0._a.flat)])))
+        props.append(("left-image-untouched", z3.And(*[S.term_eq(a, b, 'x4') for a, b in zip(L["im"].data._a.flat, li0._a.flat)])))
+        rng = np.random.RandomState(5)
+        pin = z3.And(*[e_.t.val == int(rng.randint(0, vmax + 1)) for e_ in li0._a.flat])
+        col.check_path(props, label='p%d' % len(EX.trace), extra=ex, group=False, witnesses=[("pinned-image-satisfies-the-path-condition", pin)])
+        info['fn'] = instr.fn_hash(SI.StdIntensity.confidence_prediction, IT.compute_std_raster, IT.compute_mean_raster)
+    res, stats = explore(h, max_paths=8)
+    return col.result(stats, functions=info.get('fn', {}), bounds={'image': [len(bands) if bands else 1, R, C], 'window': ws, 'radiometry': 'integers in [0, %d]' % vmax},
+                      stubs=['np.sqrt = uninterpreted function with sqrt(x) >= 0 and sqrt(x)^2 == x'],
+                      assumptions=['C12 (std_intensity): reals-for-floats (rounding of the mean, variance and square root outside the claim)'])
+
+
 def regularization(R=2, C=3, kernel=1, depth=0, cap=120, block=()):
     """interval_regularization (+ create_connected_graph, graph_regularization) with quantile 1: bounds can only widen, the ambiguity band
     handed in is not modified.  Data-dependent shapes: the segment borders are concretised by forking."""
@@ -224,8 +301,82 @@ def replay(cex):
         if (oi > i0).any() or (os_ < s0).any():
             bad.append('regularisation with quantile 1 narrowed an interval')
         return {'violates': bool(bad), 'detail': '; '.join(bad)}
+    if x.get('std_intensity'):
+        import xarray as xr
+        from pandora import cost_volume_confidence
+        R, C, ws, bands, band = x['R'], x['C'], x['ws'], x['bands'], x['band']
+        hh = ws // 2
+        shp = (R, C) if not bands else (len(bands), R, C)
+        im = np.array(inp['l'], np.float32).reshape(shp)
+        coords = {"row": np.arange(R), "col": np.arange(C)}
+        if bands:
+            coords["band_im"] = list(bands)
+        L = xr.Dataset({"im": (["row", "col"] if not bands else ["band_im", "row", "col"], im.copy())}, coords=coords)
+        L.attrs = {"valid_pixels": 0, "no_data_mask": 1, "crs": None, "transform": None, "no_data_img": -9999}
+        disp = xr.Dataset({"disparity_map": (["row", "col"], np.zeros((R, C), np.float32))}, coords={"row": np.arange(R), "col": np.arange(C)})
+        cv = xr.Dataset({"cost_volume": (["row", "col", "disp"], np.zeros((R, C, 2), np.float32))}, coords={"row": np.arange(R), "col": np.arange(C), "disp": [0, 1]})
+        cv.attrs = {"window_size": ws, "band_correl": band, "offset_row_col": hh}
+        try:
+            d2, c2 = cost_volume_confidence.AbstractCostVolumeConfidence(**{"confidence_method": "std_intensity"}).confidence_prediction(disp, L, None, cv)
+        except BaseException as e:      # noqa
+            return {'violates': True, 'detail': 'std_intensity raised %r' % (e,)}
+        bad = []
+        if list(d2.coords["indicator"].data) != ["confidence_from_intensity_std"]:
+            bad.append('indicator names %s' % list(d2.coords["indicator"].data))
+        got = d2["confidence_measure"].data[:, :, 0]
+        sel = im if not bands else im[list(bands).index(band)]
+        for r in range(R):
+            for c in range(C):
+                if r < hh or r >= R - hh or c < hh or c >= C - hh:
+                    if got[r, c] == got[r, c]:
+                        bad.append('border pixel (%d,%d) has std %r' % (r, c, float(got[r, c])))
+                    continue
+                w = sel[r - hh:r + hh + 1, c - hh:c + hh + 1].astype(np.float64)
+                e = float(np.sqrt(max((w ** 2).mean() - w.mean() ** 2, 0.0)))
+                if not (abs(float(got[r, c]) - e) <= 1e-3 * max(1.0, e)):
+                    bad.append('std at (%d,%d) is %r, the window gives %r (image %s)' % (r, c, float(got[r, c]), e, im.tolist()))
+        if not np.array_equal(L["im"].data, im):
+            bad.append('left image modified')
+        return {'violates': bool(bad), 'detail': '; '.join(bad[:3])}
     if x.get('alloc'):
-        return {'violates': False, 'detail': 'allocate_confidence_map: no numpy replay implemented (pure container code)'}
+        import xarray as xr
+        from pandora.cost_volume_confidence import AbstractCostVolumeConfidence as ACC
+        R, C, nbands, with_cv = x['R'], x['C'], x['nbands'], x['with_cv']
+
+        def arr(name, shape):
+            v = inp.get(name)
+            return np.array(v if v is not None else np.zeros(shape), np.float32).reshape(shape)
+        new = arr('new', (R, C)); cvd = arr('cvd', (R, C, 2)); dm = arr('dm', (R, C))
+        names = ["confidence_from_ambiguity", "confidence_from_risk_max.1", "confidence_from_std_intensity"][:nbands]
+        coords = {"row": np.arange(R), "col": np.arange(C)}
+        disp = xr.Dataset({"disparity_map": (["row", "col"], dm.copy())}, coords=coords)
+        cv = xr.Dataset({"cost_volume": (["row", "col", "disp"], cvd.copy())}, coords=dict(coords, disp=[0, 1])) if with_cv else None
+        old = None
+        if nbands:
+            old = arr('old', (R, C, nbands))
+            disp["confidence_measure"] = xr.DataArray(old.copy(), dims=["row", "col", "indicator"], coords={"indicator": names})
+            if with_cv:
+                cv["confidence_measure"] = xr.DataArray(old.copy(), dims=["row", "col", "indicator"], coords={"indicator": names})
+        try:
+            d2, c2 = ACC.allocate_confidence_map("risk_min.x", new.copy(), disp, cv)
+        except BaseException as e:      # noqa
+            return {'violates': True, 'detail': 'allocate_confidence_map raised %r' % (e,)}
+        bad = []
+        for nm, ds in (("disparity dataset", d2),) + ((("cost volume dataset", c2),) if with_cv else ()):
+            got = [str(v) for v in ds.coords["indicator"].data]
+            if got != names + ["confidence_from_risk_min.x"]:
+                bad.append('%s: band names %s, expected %s' % (nm, got, names + ["confidence_from_risk_min.x"]))
+                continue
+            cm = ds["confidence_measure"].data
+            if cm.shape != (R, C, nbands + 1) or not np.array_equal(cm[:, :, nbands], new, equal_nan=True):
+                bad.append('%s: the new band does not hold the new values' % nm)
+            if nbands and not np.array_equal(cm[:, :, :nbands], old, equal_nan=True):
+                bad.append('%s: existing bands modified' % nm)
+        if with_cv and not np.array_equal(c2["cost_volume"].data, cvd, equal_nan=True):
+            bad.append('cost volume modified')
+        if not np.array_equal(d2["disparity_map"].data, dm, equal_nan=True):
+            bad.append('disparity map modified')
+        return {'violates': bool(bad), 'detail': '; '.join(bad[:3])}
     import pandora.cost_volume_confidence.ambiguity as AM, pandora.cost_volume_confidence.risk as RK, pandora.cost_volume_confidence.interval_bounds as IB
     R, C, D = x['R'], x['C'], x['D']
     cv = np.array(inp['cv'], np.float32).reshape(R, C, D)
